@@ -140,6 +140,9 @@ func (u *Unit) execFor(s *ast.ForStmt, st *State) []Outcome {
 		// index loop (or back) keeps `idx`-based invariants provable
 		st.assume(eq(gidx.T, "(- "+st.env[autoVar].T+" "+autoLo+")"))
 	}
+	// at an arbitrary loop head the sites inside the body may or may not have been executed in the previous iteration:
+	// their reached-flags are unknown (the invariant speaks about them)
+	u.resetReachedIn(s.Body, nil, st)
 	u.assumeInvariants(st, ls, bind)
 	var variant0 string
 	cond := "true"
@@ -308,6 +311,9 @@ func (u *Unit) execRangeSlice(s *ast.RangeStmt, st *State) []Outcome {
 	bind = map[string]Val{"idx": idx}
 	st.assume("(<= 0 " + idx.T + ")")
 	st.assume("(<= " + idx.T + " " + length + ")")
+	// at an arbitrary loop head the sites inside the body may or may not have been executed in the previous iteration:
+	// their reached-flags are unknown (the invariant speaks about them)
+	u.resetReachedIn(s.Body, nil, st)
 	u.assumeInvariants(st, ls, bind)
 	var outs []Outcome
 	// body
@@ -437,6 +443,9 @@ func (u *Unit) execRangeMap(s *ast.RangeStmt, st *State, mt *types.Map) []Outcom
 	// seen is a subset of the domain at loop entry
 	sub := u.reg.fresh("k", ks)
 	_ = sub
+	// at an arbitrary loop head the sites inside the body may or may not have been executed in the previous iteration:
+	// their reached-flags are unknown (the invariant speaks about them)
+	u.resetReachedIn(s.Body, nil, st)
 	u.assumeInvariants(st, ls, bind)
 	if n > 0 {
 		u.commuteCheck(s, st, m, mt, dom0, seen, n)
